@@ -233,10 +233,18 @@ def _trace_value(ctx, f, e, node, depth):
 
 
 def _is_incr_loop(ctx, f, loop, target_q):
-    """for x in D.values(): x.increment_generation()  -> D name or None."""
+    """for x in D.values(): x.increment_generation()  -> D name or None.
+
+    Accepted spellings of the iterable: D.values(), list(D.values()),
+    sorted(D.values(), ...), tuple(...).  The call must be the loop's only
+    statement and unconditional; a conditional increment is reported by the
+    caller through increment_sites()."""
     if not isinstance(loop, ast.For) or not isinstance(loop.target, ast.Name):
         return None
     it = loop.iter
+    while isinstance(it, ast.Call) and isinstance(it.func, ast.Name) and \
+            it.func.id in ('list', 'sorted', 'tuple') and it.args:
+        it = it.args[0]
     if not (isinstance(it, ast.Call) and isinstance(it.func, ast.Attribute)
             and it.func.attr == 'values' and isinstance(
                 it.func.value, ast.Name) and not it.args):
@@ -255,6 +263,19 @@ def _is_incr_loop(ctx, f, loop, target_q):
     if not any(t in names for t in target_q):
         return None
     return it.func.value.id
+
+
+def increment_sites(ctx, f):
+    """Every call of an increment_generation in f with its conditions."""
+    out = []
+    for c in own_nodes(f.node):
+        if isinstance(c, ast.Call) and isinstance(
+                c.func, ast.Attribute) and c.func.attr == \
+                'increment_generation':
+            conds = [src(i.test) for i, _b in C.guarding_ifs(
+                C.stmt_of(c), f.node)]
+            out.append((c, conds))
+    return out
 
 
 def _filled_before_continue(f, loop, dname):
@@ -319,6 +340,11 @@ def _r10_2(ctx, R, RULE='R10.2'):
                 rp_loop, rp_map = lp, d
             else:
                 cons_loop, cons_map = lp, d
+    cond_sites = [(c, cd) for c, cd in increment_sites(ctx, f) if cd]
+    R.ob(RULE, '_set_allocations:increments-unconditional', not cond_sites,
+         'no generation increment of the allocation write is conditional',
+         ['%s under %s' % (src(c.func), cd) for c, cd in cond_sites],
+         func=f, node=cond_sites[0][0] if cond_sites else None)
     R.ob(RULE, '_set_allocations:provider-increment-loop',
          rp_loop is not None,
          'for rp in <map returned by _check_capacity_exceeded>.values(): '
